@@ -100,27 +100,27 @@ Fixpoint reserve (p sum_ratio reserved used : Q) (l : list entry) : list slot :=
   end.
 
 (* ---------------------------------------------------------------- deficit covering *)
-(* max(excess_reserved.items(), key=value): first maximal entry, as (index, value) *)
-Fixpoint largest_from (l : list slot) (i : nat) (best : option (nat * Q)) : option (nat * Q) :=
+(* max(excess_reserved.items(), key=value) picks the FIRST entry carrying the maximal value:
+   [max_excess] is that value, [take_first lp v] rewrites the first excess entry equal to it *)
+Definition max_step (acc : option Q) (s : slot) : option Q :=
+  match s_kind s with
+  | KExcess e => match acc with
+                 | Some b => if Qlt_bool b e then Some e else acc
+                 | None => Some e
+                 end
+  | _ => acc
+  end.
+Definition max_excess (l : list slot) : option Q := fold_left max_step l None.
+
+Fixpoint take_first (lp v : Q) (l : list slot) : list slot :=
   match l with
-  | [] => best
+  | [] => []
   | s :: t =>
       match s_kind s with
-      | KExcess e =>
-          match best with
-          | Some (_, b) => if Qlt_bool b e then largest_from t (S i) (Some (i, e)) else largest_from t (S i) best
-          | None => largest_from t (S i) (Some (i, e))
-          end
-      | _ => largest_from t (S i) best
+      | KExcess e => if Qeq_bool e lp then mkS (s_src s) (s_min s) (s_upper s) (KExcess v) :: t
+                     else s :: take_first lp v t
+      | _ => s :: take_first lp v t
       end
-  end.
-Definition largest (l : list slot) := largest_from l 0%nat None.
-
-Fixpoint set_excess (i : nat) (v : Q) (l : list slot) : list slot :=
-  match l, i with
-  | [], _ => []
-  | s :: t, O => mkS (s_src s) (s_min s) (s_upper s) (KExcess v) :: t
-  | s :: t, S j => s :: set_excess j v t
   end.
 
 (* the while loop for one deficit [d] (negative); returns the slots and the uncovered rest *)
@@ -129,12 +129,12 @@ Fixpoint cover (fuel : nat) (d : Q) (l : list slot) : list slot * Q :=
   | O => (l, d)
   | S f =>
       if czero d || negb (Qlt_bool d 0) then (l, d) else
-      match largest l with
+      match max_excess l with
       | None => (l, d)
-      | Some (i, lp) =>
+      | Some lp =>
           if czero lp || Qlt_bool lp 0 then (l, d)
-          else if Qle_bool (- d) lp || isclose lp (- d) then (set_excess i (lp + d) l, 0)
-          else cover f (d + lp) (set_excess i 0 l)
+          else if Qle_bool (- d) lp || isclose lp (- d) then (take_first lp (lp + d) l, 0)
+          else cover f (d + lp) (take_first lp 0 l)
       end
   end.
 
@@ -201,23 +201,26 @@ Definition split_group (g : gpower) : list (Z * Q) * Q :=
   | invs => split_loop (gp_power g) (sort_invs invs)
   end.
 
-Fixpoint split_all (l : list gpower) : list (pgroup * list (Z * Q)) * Q :=
+(* per battery group: its data, its inverters' set-points, the part of its power no inverter took *)
+Record gres := mkGR { gr_src : pgroup; gr_sp : list (Z * Q); gr_left : Q }.
+
+Fixpoint split_all (l : list gpower) : list gres * Q :=
   match l with
   | [] => ([], 0)
   | g :: t => let '(d, r) := split_group g in
-              let '(ds, rs) := split_all t in ((gp_src g, d) :: ds, r + rs)
+              let '(ds, rs) := split_all t in (mkGR (gp_src g) d r :: ds, r + rs)
   end.
 
 (* ---------------------------------------------------------------- _distribute_power *)
 Inductive label := LAllZero | LZeroSkip | LDeficit | LDeficitUncovered | LGreedy | LMultiInverter
-                 | LSplitLeftover | LSupply | LTinyRequest.
+                 | LSplitLeftover | LSupply | LTinyRequest | LNegExcess | LNegLeftover.
 
-Record result := mkR { res_groups : list (pgroup * list (Z * Q));   (* per battery group, in processing order: its inverters' set-points *)
+Record result := mkR { res_groups : list gres;   (* per battery group, in processing order *)
                        res_rem : Q; res_trace : list label }.
-Definition res_dist (r : result) : list (Z * Q) := flat_map snd (res_groups r).
+Definition res_dist (r : result) : list (Z * Q) := flat_map gr_sp (res_groups r).
 
-Definition zeros (gs : list pgroup) : list (pgroup * list (Z * Q)) :=
-  map (fun g => (g, map (fun i => (pi_id i, 0)) (pg_invs g))) gs.
+Definition zeros (gs : list pgroup) : list gres :=
+  map (fun g => mkGR g (map (fun i => (pi_id i, 0)) (pg_invs g)) 0) gs.
 
 Definition total_cap (gs : list pgroup) : Q := qsum (map pg_cap gs).
 Definition entries (gs : list pgroup) : list entry := sort_entries (map (mk_entry (total_cap gs)) gs).
@@ -251,11 +254,14 @@ Definition core (gs : list pgroup) (p : Q) : option result :=
                ++ flag (existsb (fun r => negb (czero r) && Qlt_bool r 0) rests) LDeficitUncovered
                ++ flag (negb (czero lo)) LGreedy
                ++ flag (existsb (fun g => (1 <? length (pg_invs (gp_src g)))%nat) pw) LMultiInverter
-               ++ flag (negb (Qeq_bool srem 0)) LSplitLeftover)).
+               ++ flag (negb (Qeq_bool srem 0)) LSplitLeftover
+               ++ flag (existsb (fun s => match s_kind s with KExcess e => Qlt_bool e 0 | _ => false end) sl) LNegExcess
+               ++ flag (Qlt_bool lo 0) LNegLeftover)).
 
 (* ---------------------------------------------------------------- distribute_power *)
 Definition neg_result (r : result) : result :=
-  mkR (map (fun gd => (fst gd, map (fun a => (fst a, - snd a)) (snd gd))) (res_groups r)) (- res_rem r) (LSupply :: res_trace r).
+  mkR (map (fun gd => mkGR (gr_src gd) (map (fun a => (fst a, - snd a)) (gr_sp gd)) (- gr_left gd)) (res_groups r))
+      (- res_rem r) (LSupply :: res_trace r).
 
 Definition distribute (powf : Q -> Q) (gs : list group) (p : Q) : option result :=
   if czero p then Some (mkR (zeros (map (prepare false powf) gs)) 0 [LTinyRequest])
@@ -280,3 +286,12 @@ Fixpoint insert_id (x : Z * Q) (l : list (Z * Q)) : list (Z * Q) :=
   | y :: t => if (fst y <? fst x)%Z then y :: insert_id x t else x :: l
   end.
 Definition sort_by_id (l : list (Z * Q)) : list (Z * Q) := fold_right insert_id [] l.
+
+Definition label_eqb (a b : label) : bool :=
+  match a, b with
+  | LAllZero, LAllZero | LZeroSkip, LZeroSkip | LDeficit, LDeficit | LDeficitUncovered, LDeficitUncovered
+  | LGreedy, LGreedy | LMultiInverter, LMultiInverter | LSplitLeftover, LSplitLeftover | LSupply, LSupply
+  | LTinyRequest, LTinyRequest | LNegExcess, LNegExcess | LNegLeftover, LNegLeftover => true
+  | _, _ => false
+  end.
+Definition has_label (l : label) (r : result) : bool := existsb (label_eqb l) (res_trace r).
